@@ -1,9 +1,8 @@
 // Environment of the units that READ a whole backup archive (archive_checksum, archive_extract).  Included INSIDE the unit's
-// verus! block, after prelude/archive_env.rs (crate level).  The two header readers are stubs here, with exactly the
-// contracts proved on their real bodies by unit archive_header.
+// verus! block, after prelude/archive_env.rs (crate level).  The two header readers are stubs here whose contracts are generated
+// (//@stub) from the clauses proved on their real bodies by unit archive_header.
 //@assume the archive file is not modified between File::open and the end of the read (`file_bytes(path)` is a function of the path; reader model: the byte string is constant)
 //@trusted File::open(p) Ok + BufReader::new: a reader at position 0 over file_bytes(p)
-//@trusted read_archive_file_count / read_archive_member_header are stubs here with exactly the contracts proved on their real bodies by unit archive_header
 //@trusted u64::min, usize::try_from(u64) (vstd), <[u8]>::index / index_mut by RangeTo (vstd), Result::unwrap_or
 pub assume_specification<T, E>[core::result::Result::<T, E>::unwrap_or](res: core::result::Result<T, E>, d: T) -> (o: T)
     ensures o == (match res { Ok(v) => v, Err(_) => d });
@@ -33,27 +32,10 @@ impl Path {
     #[verifier::external_body] pub fn exists(&self) -> (r: bool) ensures r == file_exists(self@) { unimplemented!() }
 }
 
-// ---- callees proved in unit archive_header (same contract text)
-#[verifier::external_body]
-fn read_archive_file_count<R: Read>(reader: &mut R) -> (r: Result<u32>)
-    requires old(reader).rd().pos >= 0,
-    ensures
-        final(reader).rd().bytes == old(reader).rd().bytes,
-        r.is_ok() ==> old(reader).rd().pos + 4 <= old(reader).rd().bytes.len(),
-        r.is_ok() ==> r.unwrap() == le32(old(reader).rd().bytes.subrange(old(reader).rd().pos, old(reader).rd().pos + 4)),
-        r.is_ok() ==> r.unwrap() <= 1_000_000,
-        r.is_ok() ==> final(reader).rd().pos == old(reader).rd().pos + 4,
-{ unimplemented!() }
-#[verifier::external_body]
-fn read_archive_member_header<R: Read>(reader: &mut R) -> (r: Result<(String, u64)>)
-    requires old(reader).rd().pos >= 0,
-    ensures
-        final(reader).rd().bytes == old(reader).rd().bytes,
-        r.is_ok() ==> hdr_ok(old(reader).rd().bytes, old(reader).rd().pos),
-        r.is_ok() ==> r.unwrap().0@ == utf8(hdr_name_bytes(old(reader).rd().bytes, old(reader).rd().pos)),
-        r.is_ok() ==> r.unwrap().1 == hdr_data_len(old(reader).rd().bytes, old(reader).rd().pos),
-        r.is_ok() ==> final(reader).rd().pos == old(reader).rd().pos + 12 + hdr_name_len(old(reader).rd().bytes, old(reader).rd().pos),
-{ unimplemented!() }
+// ---- callees: contracts GENERATED from the clauses proved in unit archive_header (//@stub: no hand copy)
+//@include archive_name_spec.rs
+//@stub archive_header read_archive_file_count
+//@stub archive_header read_archive_member_header
 
 pub open spec fn member_end(b: Seq<u8>, p: int) -> int { p + 12 + hdr_name_len(b, p) + hdr_data_len(b, p) as int }
 pub open spec fn payload(b: Seq<u8>, p: int) -> Seq<u8> { b.subrange(p + 12 + hdr_name_len(b, p), member_end(b, p)) }
